@@ -259,6 +259,31 @@ def grammar_stream(R_, tier, rnd):
             R_.counterexample('identity', 'memo-returns-different-objects', {'text': text}, 'the same object', repr(v))
 
 
+    # ... whatever the kind of value: a list, a tuple, a dict or a string built by the rule is handed out as the one object it is
+    ID_GRAMMARS = [
+        ('list', 'Items = /[a-z]/*\nstart = [Expect(Items), Items, Expect(Opt(Items))]\n'),
+        ('list-of-objects', 'class K { a: /[a-z]/ }\nItems = K+\nstart = [Expect(Items), Items]\n'),
+        ('separated-list', 'Items = (/[a-z]/ // ",")\nstart = [Expect(Items), Items]\n'),
+        ('sequence', 'Items = [/[a-z]/, /[a-z]/?]\nstart = [Expect(Items), Items]\n'),
+        ('tuple-from-python', 'Items = /[a-z]/* |> `tuple`\nstart = [Expect(Items), Items]\n'),
+        ('dict-from-python', 'Items = /[a-z]/* |> `lambda xs: {"xs": xs}`\nstart = [Expect(Items), Items]\n'),
+        ('class-fields', 'Digits = /[0-9]/+\nclass P { peeked: Expect(Digits); parsed: Digits }\nstart = P |> `lambda p: [p.peeked, p.parsed]`\n'),
+        ('alternatives', '```\nSEEN = []\ndef keep(x):\n    SEEN.append(x)\n    return x\n```\nWord = /[a-z]/+\n'
+                         'start = ((Word |> `keep`) << "!") | ((Word |> `keep`) << "?") | (Word |> `keep`) |> `lambda w: list(SEEN[-3:])`\n'),
+    ]
+    for name, desc in ID_GRAMMARS:
+        g = Grammar(desc)
+        for text in ['ab', 'a', 'abc', 'a,b', '12', 'ab?']:
+            try:
+                v = g.parse(text)
+            except g.InputError:
+                continue
+            R_.count('identity', (name, text))
+            if isinstance(v, list) and len(v) >= 2 and any(v[i] is not v[0] for i in range(1, len(v)) if v[i] is not None and type(v[i]) is type(v[0]) and v[i] == v[0]):
+                R_.counterexample('identity', 'memo-returns-different-objects', {'grammar': desc, 'text': text, 'kind': name},
+                                  'every reference to the rule at that position receives the same object', [id(x) for x in v])
+
+
 def memo_structure(R_):
     """the machine of Run.v only ever ADDS to the memo table (`upd`), once, when a keyed frame is popped: the runtime's _run
     must do the same - one store `memo[key] = result`, no removal, no second table, no rebinding of `memo`"""
